@@ -20,6 +20,7 @@ import (
 	"github.com/FollowTheProcess/spok/logger"
 	"github.com/FollowTheProcess/spok/shell"
 	"github.com/FollowTheProcess/spok/task"
+	"github.com/FollowTheProcess/spok/verifhook"
 	"github.com/bmatcuk/doublestar/v4"
 	"github.com/lithammer/fuzzysearch/fuzzy"
 	"golang.org/x/exp/maps"
@@ -218,6 +219,7 @@ func (s *SpokFile) Run(stream iostream.IOStream, runner shell.Runner, force bool
 // run is the implementation of the public Run method.
 func (s *SpokFile) run(stream iostream.IOStream, runner shell.Runner, force bool, runOrder []task.Task) (task.Results, error) {
 	results := make(task.Results, 0, len(runOrder))
+	verifhook.Point("run.begin", len(runOrder))
 
 	cachePath := filepath.Join(s.Dir, cache.Path)
 	if !cache.Exists(cachePath) {
@@ -229,12 +231,15 @@ func (s *SpokFile) run(stream iostream.IOStream, runner shell.Runner, force bool
 		}
 	}
 
+	verifhook.Point("run.cache.ready", cachePath)
 	cachedState, err := cache.Load(cachePath)
 	if err != nil {
 		return nil, fmt.Errorf("Could not load spok cache file at %q: %s", cachePath, err)
 	}
 
+	verifhook.Point("run.cache.loaded", cachePath)
 	for _, taskToRun := range runOrder {
+		verifhook.Point("run.task.begin", taskToRun.Name)
 		// Gather up all the files to be hashed into a single slice
 		var toHash []string
 
@@ -283,7 +288,9 @@ func (s *SpokFile) run(stream iostream.IOStream, runner shell.Runner, force bool
 		case force || !hasFiles || cachedDigest == "" || currentDigest != cachedDigest:
 			// Forced, nothing to compare, never run before or out of date, in which case the action
 			// to be taken is the same: run the task
+			verifhook.Point("run.task.pre", taskToRun.Name)
 			result, err = taskToRun.Run(runner, stream, s.Env())
+			verifhook.Point("run.task.post", taskToRun.Name, err == nil && result.Ok())
 			if err != nil {
 				return nil, fmt.Errorf("Task %q encountered an error: %w", taskToRun.Name, err)
 			}
@@ -311,10 +318,12 @@ func (s *SpokFile) run(stream iostream.IOStream, runner shell.Runner, force bool
 			skipped = true
 		}
 
+		verifhook.Point("run.decide", taskToRun.Name, cachedDigest, currentDigest, force, len(toHash), skipped)
 		// Gather up all the task results
 		results = append(results, task.Result{CommandResults: result, Task: taskToRun.Name, Skipped: skipped})
 	}
 
+	verifhook.Point("run.end", len(results))
 	return results, nil
 }
 
@@ -340,6 +349,7 @@ func (s *SpokFile) findClosestMatch(task string) string {
 // typical usage will make start = $CWD and stop = $HOME.
 func Find(logger logger.Logger, start, stop string) (string, error) {
 	for {
+		verifhook.Point("find.iter", start)
 		logger.Debug("Looking in %s for spokfile", start)
 		entries, err := os.ReadDir(start)
 		if err != nil {
